@@ -174,6 +174,27 @@ func ruleC15R1(r *Run) {
 				continue
 			}
 		}
+		if mu, ok := p.ownMutexHeld(fa, 'W'); ok {
+			// lazily initialised under the object's own mutex: every other access must hold it, too
+			bad := ""
+			for _, o := range p.fieldAccesses(fa.Owner) {
+				if o.Field != fa.Field || o.Instr == fa.Instr {
+					continue
+				}
+				if al, isA := p.resolve(addrRoot2(o)).(*ssa.Alloc); isA && al.Parent() == o.Fn {
+					continue
+				}
+				if m2, held := p.ownMutexHeld(o, 'R'); !held || m2 != mu {
+					bad = p.pos(o.Instr.Pos()) + " in " + p.hostName(o.Fn)
+				}
+			}
+			if bad == "" {
+				r.OK(construct, fa.Instr.Pos(), "written with the object's own mutex "+mu+" held; every other access to the field holds it as well")
+				continue
+			}
+			r.Fail(construct, fa.Instr.Pos(), "generator field "+fa.Owner+"."+fa.Field+" is written in "+name+" under "+mu+", but accessed without it at "+bad+": a data race between checks sharing the generator")
+			continue
+		}
 		r.Fail(construct, fa.Instr.Pos(), "generator field "+fa.Owner+"."+fa.Field+" is written in "+name+" after construction without synchronisation: a generator shared by concurrently running checks has a data race (and draws may depend on which check ran first)")
 	}
 	r.Floor("stores to generator fields", n, 40)
@@ -209,7 +230,7 @@ func (r *Run) oncePublishedFields() []oncePublished {
 func ruleC15R2(r *Run) {
 	p := r.P
 	pubs := r.oncePublishedFields()
-	r.Floor("fields published through sync.Once", len(pubs), 2)
+	r.Floor("fields published through sync.Once", len(pubs), 1)
 	n := 0
 	for _, pub := range pubs {
 		onceField := pub.once[strings.LastIndex(pub.once, ".")+1:]
@@ -234,7 +255,7 @@ func ruleC15R2(r *Run) {
 			r.Check(construct, fa.Instr.Pos(), ok, "read after "+base+"."+onceField+".Do returned", pub.owner+"."+pub.field+" is written under "+onceField+".Do but read in "+name+" without a preceding Do on that Once: the read races with the first Do of a concurrently running check")
 		}
 	}
-	r.Floor("reads of Once-published fields", n, 2)
+	r.Floor("reads of Once-published fields", n, 1)
 }
 
 func ruleC15R3(r *Run) {
@@ -447,7 +468,7 @@ func ruleC15R4(r *Run) {
 		for fn.Parent() != nil {
 			fn = fn.Parent()
 		}
-		return fn.Name() == "init" || strings.HasPrefix(fn.Name(), "init#")
+		return isPackageInit(fn)
 	}
 	for _, g := range globals {
 		elem := deref(g.Type())
@@ -581,7 +602,7 @@ func ruleSharedContents(r *Run, hosts map[string]bool, floor int) {
 		for fn.Parent() != nil {
 			fn = fn.Parent()
 		}
-		return fn.Name() == "init" || strings.HasPrefix(fn.Name(), "init#")
+		return isPackageInit(fn)
 	}
 	nLoads := 0
 	for _, fn := range p.FuncList {
@@ -638,6 +659,9 @@ func globalOfAddr(addr ssa.Value) *ssa.Global {
 
 // readOnlyCallees: external functions that do not write through their slice/map/pointer arguments.
 var readOnlyCalleePrefixes = []string{"strings.", "unicode.", "unicode/utf8.", "fmt.", "sort.Search", "bytes.Equal", "bytes.Index", "bytes.Contains",
+	// the read-only part of package slices (documented not to modify their arguments)
+	"slices.Contains", "slices.Index", "slices.BinarySearch", "slices.Equal", "slices.Compare", "slices.Max", "slices.Min", "slices.IsSorted", "slices.Clone", "slices.Concat",
+	"sort.SliceIsSorted", "sort.StringsAreSorted", "sort.IsSorted", "maps.Keys", "maps.Values", "maps.Clone", "maps.Equal",
 	"(*regexp.Regexp).", "(*regexp/syntax.", "regexp/syntax.", "reflect.ValueOf", "reflect.TypeOf", "(*log.Logger).", "(*strings.Builder).", "builtin:len", "builtin:cap", "builtin:print",
 	"(*flag.FlagSet).", "flag.", "(*testing.", "invoke:tb.", "invoke:", "math/bits.", "strconv.", "(*sync.Once).", "(*sync.Mutex).", "(*sync.RWMutex).", "(*sync/atomic.",
 	// documented: "A template may be executed safely in parallel" (html/template escapes under its own mutex)
@@ -997,4 +1021,31 @@ func rulePublishComplete(r *Run) {
 		}
 	}
 	r.Floor("publications through sync.Map", n, 3)
+}
+
+func addrRoot2(fa fieldAccess) ssa.Value {
+	if fa.FA != nil {
+		return addrRoot(fa.FA)
+	}
+	return fa.Base
+}
+
+// ownMutexHeld: the access happens while a sync.Mutex / sync.RWMutex field of the same object is held (mode 'W':
+// exclusively). Returns the mutex field's name.
+func (p *Program) ownMutexHeld(fa fieldAccess, mode byte) (string, bool) {
+	if fa.FA == nil {
+		return "", false
+	}
+	base := strings.TrimPrefix(p.expr(fa.FA.X), "&")
+	ls := p.lockSets(p.host(fa.Fn))[fa.Instr]
+	if ls == nil {
+		ls = p.lockSets(fa.Fn)[fa.Instr]
+	}
+	for path, m := range ls {
+		pre := "&" + base + "."
+		if strings.HasPrefix(path, pre) && !strings.Contains(path[len(pre):], ".") && (m == 'W' || mode == 'R') {
+			return path[len(pre):], true
+		}
+	}
+	return "", false
 }
